@@ -48,7 +48,7 @@
 (*                        the client stays "Connected" on a dead channel.   *)
 (*                        Contract: a loss of the current channel is kept.  *)
 (***************************************************************************)
-EXTENDS Naturals, Sequences, FiniteSets, TLC, Json
+EXTENDS Naturals, Sequences, FiniteSets, TLC, Json, ConnState
 
 CONSTANTS
   Apps,            \* application goroutines
@@ -105,18 +105,6 @@ vars == <<state, closedSeen, apc, script, mine, cur, subs, nextId, srvSubs, srvU
 view == <<state, closedSeen, apc, script, mine, cur, subs, nextId, srvSubs, srvUp, srvSess, conn, sess, errq,
           pausech, resumech, mux, lpc, pubOut, pubSub, mpc, action, activeSubs, toRecreate, toRepublish, restored,
           ctxDone, dials, dialsAtClose, faults, seq, pend, inflight, ackcnt, datas, lost, fseq>>
-
-States == {"Closed", "Connecting", "Connected", "Disconnected", "Reconnecting"}
-
-\* connstate.go: Connecting = "connecting to a server for the first time"; Disconnected =
-\* "currently disconnected"; Reconnecting = "attempting to reconnect to a server it was
-\* previously connected to"; Closed = "currently closed".  Re-reporting the current state
-\* is stuttering.
-Documented ==
-  { <<"Closed", "Connecting">>, <<"Connecting", "Connected">>, <<"Connecting", "Closed">>,
-    <<"Connected", "Disconnected">>, <<"Disconnected", "Reconnecting">>,
-    <<"Reconnecting", "Connected">>, <<"Reconnecting", "Disconnected">>,
-    <<"Connected", "Closed">>, <<"Disconnected", "Closed">>, <<"Reconnecting", "Closed">> }
 
 Log(p, a, x) == hist' = IF Hist THEN Append(hist, [p |-> p, a |-> a, x |-> x]) ELSE hist
 
